@@ -1194,6 +1194,16 @@ class Rewriter:
             code = code[:mm_fl.start()] + '{ let lines__ = vx::vec_take(%s.vx_lines(), %s); for %s in lines__.iter() ' % (e, n_, v) + code[ob:cb + 1] + ' }' + code[cb + 1:]
             k_ft += 1
         self.note('for x in s.lines().take(n)->for x in vx::vec_take(s.vx_lines(), n).iter()', k_ft)
+        # `S.get(A..B)` on a str (literal bounds) -> vx::str_get(S, A, B)
+        k_sg = 0
+        while True:
+            m_sg = mask(code)
+            mm_sg = re.search(r'(?<![A-Za-z0-9_.])([A-Za-z_][A-Za-z0-9_.]*?)\s*\.\s*get\s*\(\s*([0-9]+)\s*\.\.\s*([0-9]+)\s*\)', m_sg)
+            if not mm_sg:
+                break
+            code = code[:mm_sg.start()] + 'vx::str_get(&%s, %s, %s)' % (mm_sg.group(1), mm_sg.group(2), mm_sg.group(3)) + code[mm_sg.end():]
+            k_sg += 1
+        self.note('s.get(a..b)->vx::str_get(&s, a, b)', k_sg)
         # `TABLE.iter().position(|&c| c == X)` over a table of string literals -> vx::lits_position(&TABLE, X)
         k_ps = 0
         while True:
@@ -1258,6 +1268,24 @@ class Rewriter:
             code = code[:rs] + '(match %s { Some(%s) => %s, None => %s })' % (recv, cm.group(1), cm.group(2), args[0].strip()) + code[cp + 1:]
             k_mo += 1
         self.note('opt.map_or(d, |v| e)->match', k_mo)
+        # `O.as_ref().map(|v| E)` (E a plain expression over v) -> match
+        k_om = 0
+        while True:
+            m_om = mask(code)
+            mm_om = re.search(r'\.\s*as_ref\s*\(\s*\)\s*\.\s*map\s*\(', m_om)
+            if not mm_om:
+                break
+            op = mm_om.end() - 1
+            cp = match_close(m_om, op)
+            arg = code[op + 1:cp].strip()
+            cm = re.match(r'^\|\s*([a-z_][a-z0-9_]*)\s*\|\s*([^{}|;]*)$', arg, re.S)
+            if not cm:
+                break
+            rs = recv_start(m_om, mm_om.start())
+            recv = code[rs:mm_om.start()].strip()
+            code = code[:rs] + '(match %s.as_ref() { Some(%s) => Some(%s), None => None })' % (recv, cm.group(1), cm.group(2).strip()) + code[cp + 1:]
+            k_om += 1
+        self.note('opt.as_ref().map(|v| e)->match', k_om)
         # `(A..=B).contains(&X)` on integers -> (A <= X && X <= B)
         k_rc = 0
         while True:
